@@ -21,7 +21,7 @@ inductive Outcome (α : Type) where
   | ok (a : α)
   | err (e : ErrClass)
   | panic
-  deriving Repr, Inhabited
+  deriving Repr, Inhabited, DecidableEq
 
 namespace Outcome
 variable {α β : Type}
